@@ -462,6 +462,26 @@ func TestPropBitFlip(t *testing.T) {
 		orig, _ := render(c.File)
 		z := compress(c.Codec, orig)
 		c.FlipByte = rapid.IntRange(0, len(z)-1).Draw(rt, "byte")
+		extra := []string{}
+		if rapid.IntRange(0, 2).Draw(rt, "where") == 0 {
+			// the headers and trailers are a few bytes among thousands: aim at them
+			start, end := 0, len(z)
+			if c.Codec == "gzip2" && rapid.Bool().Draw(rt, "second_member") {
+				start = len(compress("gzip", orig[:len(orig)/2]))
+			} else if c.Codec == "gzip2" {
+				end = len(compress("gzip", orig[:len(orig)/2]))
+			}
+			if rapid.Bool().Draw(rt, "header") {
+				c.FlipByte = min(len(z)-1, start+rapid.IntRange(0, 11).Draw(rt, "hoff"))
+				extra = append(extra, "flip_in_a_member_header")
+			} else {
+				c.FlipByte = max(0, end-1-rapid.IntRange(0, 11).Draw(rt, "toff"))
+				extra = append(extra, "flip_in_a_member_trailer")
+			}
+			if start > 0 {
+				extra = append(extra, "flip_in_second_member_header_or_trailer")
+			}
+		}
 		c.FlipBit = rapid.IntRange(0, 7).Draw(rt, "bit")
 		if strings.HasPrefix(c.Codec, "gzip") && (c.File.Format == "fasta" || c.File.Format == "fastq") { // the standard-input reader knows these two formats only
 			c.Stdin = rapid.IntRange(0, 3).Draw(rt, "stdin") == 0
@@ -472,7 +492,7 @@ func TestPropBitFlip(t *testing.T) {
 		if !c.Stdin {
 			c.Multi = rapid.IntRange(0, 3).Draw(rt, "multi") == 0
 		}
-		evalFault(c, "bit_flip")
+		evalFault(c, append([]string{"bit_flip"}, extra...)...)
 		if err := checkFault(c); err != nil {
 			evid.Fail(rt, "faulted_input", c, err)
 		}
